@@ -24,7 +24,7 @@ SPEC = dict(
               "font-types/src/raw.rs: to_be_bytes/from_be_bytes of 16/32/64-bit scalars",
               "font-types/src/fixed.rs float_conv!: to_f32/to_f64/from_f32/from_f64 for all five fixed types (Flocq binary32/binary64)",
               "write-fonts/src/round.rs OtRound for f64/f32 -> f64/f32/i16/u16"],
-    not_covered=["OtRound beyond 2^(prec-1) - 1 (float -> float form off by one on odd integers, F-25), kurbo Point/Vec2 wrappers: correspondence / oracle only",
+    not_covered=["OtRound beyond 2^(prec-1) - 1 (float -> float form off by one on odd integers, F-25), kurbo Point/Vec2 wrappers: oracle only (must equal the modelled scalar forms component-wise)",
                  "from_fXX nearest-rounding is proved only under the exact-addition hypothesis; general doubles at the +-0.5 knife edge violate it (known finding F-3)",
                  "Tag, GlyphId, NameId, Offset*, Version newtypes: plain wrappers over the modelled integer codecs"],
     assumptions=["Rust integer semantics as in coq/Lib/RustInt.v (two's complement `as` casts, arithmetic >> on signed types)"],
